@@ -221,6 +221,8 @@ func loadWorld(o LoadOpts) (*World, error) {
 		}
 	}
 	w.refineParamCalls()
+	w.resolveFieldAliases()
+	debugAliases()
 	for _, cs := range w.Callees {
 		sort.Slice(cs, func(i, j int) bool { return cs[i].String() < cs[j].String() })
 	}
